@@ -119,6 +119,24 @@ fn check_multi(ctx: &mut Ctx, universe: usize, values: &[usize], via_iter: Optio
         });
         ctx.expect(|| format!("{}.one_iter[split from the back]", name), got, &(all.clone(), true), || json!({"ms": case(), "call": format!("one_iter(): {} x next_back(), then next() to the end", split)}));
     }
+    // The listing also holds when the front is advanced by skips: a few items taken from the back, one
+    // `nth(k)` from the front (also past the meeting point), then forward to the end.
+    for split in 0..=all.len().min(3) {
+        for k in 0..=all.len().min(3) {
+            let reference = &all[..all.len() - split];
+            let want = (reference.get(k).copied(), reference.iter().skip(k + 1).copied().collect::<Vec<_>>(), true);
+            let got = guard(|| {
+                let mut it = sv.one_iter();
+                for _ in 0..split {
+                    it.next_back();
+                }
+                let x = it.nth(k);
+                let rest: Vec<_> = it.by_ref().take(all.len() + 1).collect();
+                (x, rest, it.next().is_none())
+            });
+            ctx.expect(|| format!("{}.one_iter[back, then nth]", name), got, &want, || json!({"ms": case(), "call": format!("one_iter(): {} x next_back(), nth({}), then next() to the end", split, k)}));
+        }
+    }
     // Bit iterator lists the distinct positions, in both directions and at every split.
     if universe <= 5000 {
         let bools: Vec<bool> = (0..universe).map(|i| ms.get(i)).collect();
